@@ -69,7 +69,7 @@ def _fix_names(p, tags):
 SAME_PKG = [(0, 5), (0, 2), (0, 3), (1, 0), (4, 0), (0, 1), (2, 0), (5, 0), (4, 1)]
 
 
-def skeleton2(rnd, np=None, conflict=0.55, alias_p=0.0, dup_p=0.12, symbolic=5):
+def skeleton2(rnd, np=None, conflict=0.55, alias_p=0.0, dup_p=0.12, symbolic=5, bundle_p=0.0):
     """Second-generation skeleton: np packages, two slots per version, four on the root."""
     np = np or rnd.choice([3, 3, 4])
     p = {"np": np}
@@ -107,12 +107,28 @@ def skeleton2(rnd, np=None, conflict=0.55, alias_p=0.0, dup_p=0.12, symbolic=5):
                 t1 = rnd.choice([0, 0] + [t for t in others if t != t0])
                 _slot(p, "p%ss1" % tag, rnd, t1, conflict, alias_p, kinds)
                 _fix_names(p, ["p%ss0" % tag, "p%ss1" % tag])
+    # bundled (derived) packages: a version brings along a copy of the package its first requirement names
+    p["anybundle"] = 0
+    for pi in range(4):
+        for vi in range(3):
+            tag = "%d%d" % (pi, vi)
+            p["bn" + tag] = 0
+            p.update({"b%st" % tag: 0, "b%sr" % tag: 0, "b%sk" % tag: 0, "b%sa" % tag: 0})
+            if pi < np and vi < p["nv%d" % pi] and p["p%ss0t" % tag] and not p["p%ss0a" % tag] and rnd.random() < bundle_p:
+                p["bn" + tag] = rnd.choice([1, 2, 3])
+                p["p%ss0k" % tag] = 4          # declared in bundleDependencies
+                p["anybundle"] = 1
+                if rnd.random() < 0.5:          # the bundled copy has a requirement of its own
+                    others = [t for t in range(1, np + 1) if t not in (pi + 1, p["p%ss0t" % tag])]
+                    if others:
+                        _slot(p, "b%s" % tag, rnd, rnd.choice(others), conflict, 0.0, [0, 0, 1])
     # Symbolic digits: the requirements of the root and of the first versions listed keep symbolic digits until
     # `symbolic` of them are in play; every later requirement gets a concrete digit (each symbolic digit can
     # triple the number of paths).
     ops = OPS2
     left = symbolic
     tags = ["r%d" % s for s in range(4)] + ["p%d%ds%d" % (pi, vi, s) for vi in range(3) for pi in range(np) for s in range(2)]
+    tags += ["b%d%d" % (pi, vi) for vi in range(3) for pi in range(4)]
     for tag in tags:
         nd = ops[p[tag + "r"]].count("D") if p[tag + "t"] else 0
         if nd and left >= 1:
@@ -174,10 +190,12 @@ def run(tier):
     jobs2 = [dict(base, harness="VerifC06Install", params=skeleton2(rnd2)) for _ in range(n2)]
     jobs2 += [dict(base, harness="VerifC06Install", params=skeleton2(rnd2, alias_p=0.35)) for _ in range(na)]
     jobs2 += [dict(base, harness="VerifC06Install", params=directed_alias(rnd2)) for _ in range(24 if q else 240)]
+    # universes with bundled (derived) packages: the graph clauses only
+    jobs2 += [dict(base, harness="VerifC06Install", params=skeleton2(rnd2, bundle_p=0.35)) for _ in range(300 if q else 4000)]
     return run_property("C06", tier, [Group("rnpm", jobs + jobs2)],
                         required_covers=["resolved", "a graph with several nodes", "fresh install checked", "a nested install (depth 2)",
-                                         "a nested install below a nested install (depth 3)", "an edge resolved to a nested install"],
+                                         "a nested install below a nested install (depth 3)", "an edge resolved to a nested install", "a bundled copy used"],
                         assumptions=["universe skeletons are a fixed pseudo-random sample (first generation: 3 packages + root, <=3 versions, one requirement slot per version; second generation: 3-4 packages + root, <=3 versions with minor 0/1 and optional -rc, two requirement slots per version and four on the root, kinds regular/optional/dev/peer/bundle-scoped/dev+optional, aliases in a quarter of the skeletons, two requirements of one version on one package only in the combinations package.json merging defines); version majors and the digits in requirements are symbolic in 1..4",
                                      "the install tree is observed through the verif-tagged hook at the end of npm Resolve (util/resolve/npm/verif_hook.go); the tree clauses are: tree nodes = graph nodes, no directory holds a package name twice (children vs aliases), Node's walk-up lookup from the dependent lands on the edge's target",
-                                     "bundled (derived) packages are not generated"],
+                                     "bundled (derived) packages (a version brings along a copy of the package its first requirement names, optionally with a requirement of its own) are generated in a fifth of the universes; for those only the graph clauses are asserted, as the property says"],
                         bounds={"skeletons_gen1": n, "skeletons_gen2": n2 + na, "packages": "3-4", "versions_per_package": 3, "slots_per_version": 2, "digits": "1-4"})
